@@ -424,6 +424,15 @@ func (ck *checker) mutants(p *proofObj, f *family, others []*proofObj, r *rand.R
 		q = p.clone()
 		q.Inclusion, q.ProofKey, q.ProofVal, q.Value = false, nil, cp(p.Value), nil
 		add("kind-incl-as-nonincl-value-only", q)
+		// the leaf digest is hash(key || value || height) without length prefixes: the same bytes with the
+		// key/value border moved are the same leaf under a "different" key
+		for _, sh := range []int{-1, -8, -31, 1, 8} {
+			kv := append(cp(p.Key), p.Value...)
+			b := 32 + sh
+			q = p.clone()
+			q.Inclusion, q.ProofKey, q.ProofVal, q.Value = false, cp(kv[:b]), cp(kv[b:]), nil
+			add(fmt.Sprintf("kind-incl-as-nonincl-border-shift%+d", sh), q)
+		}
 	} else if len(p.ProofKey) != 0 {
 		q := p.clone()
 		q.ProofVal[r.Intn(32)] ^= 1 << uint(r.Intn(8))
